@@ -5,5 +5,5 @@ import PcVerif.Ops.Geometry
 import PcVerif.Ops.TextFormats
 import PcVerif.Ops.Xml
 namespace PcVerif.Ops
-def table : List (String × Proto.Handler) := utilOps ++ detectOps ++ baseOps ++ geoOps ++ textFormatOps ++ xmlOps
+def table : List (String × Proto.Handler) := utilOps ++ detectOps ++ baseOps ++ geoOps ++ textFormatOps ++ xmlOps ++ samiWriterOps
 end PcVerif.Ops
